@@ -204,6 +204,11 @@ func (e *Enc) callsNamed(name string) []ssa.Instruction {
 				if _, isGo := in.(*ssa.Go); isGo {
 					continue
 				}
+				if e.logOnlyCall(in) {
+					// a call whose result only feeds a log statement has no ordinal: adding or
+					// removing log lines must not renumber the calls contracts refer to
+					continue
+				}
 				cs := e.buildCallSite(nil, in, ci.Common())
 				e.callIndex[cs.name] = append(e.callIndex[cs.name], in)
 			}
@@ -1392,4 +1397,140 @@ func clauseInternal(fc *FuncContract, x CExpr, depth int) bool {
 		}
 	}
 	return false
+}
+
+// ---------------------------------------------------------------------------------------------
+// calls that exist only to feed a log statement
+
+// logOnlyCall: the call's result flows - possibly through interface boxing, slicing, formatting or
+// a varargs array - only into arguments of logging calls. Such calls are skipped when calls are
+// numbered for ret(f, k) / "site call f nth k".
+func (e *Enc) logOnlyCall(in ssa.Instruction) bool {
+	if e.logOnly == nil {
+		e.logOnly = map[ssa.Instruction]bool{}
+	}
+	if r, ok := e.logOnly[in]; ok {
+		return r
+	}
+	v, ok := in.(ssa.Value)
+	r := false
+	if ok {
+		if t, isT := v.Type().(*types.Tuple); !isT || t.Len() > 0 {
+			r = e.feedsOnlyLogging(v, map[ssa.Value]bool{})
+		}
+	}
+	e.logOnly[in] = r
+	return r
+}
+
+func (e *Enc) isLogSink(key string) bool {
+	if !e.eng.isEffectFree(key) {
+		return false
+	}
+	return strings.Contains(key, "btclog") || strings.Contains(key, "go-spew") ||
+		strings.HasSuffix(key, "lnutils.SpewLogClosure") || strings.HasSuffix(key, "lnutils.NewLogClosure") ||
+		strings.HasSuffix(key, "lnutils.LogPubKey")
+}
+
+func (e *Enc) feedsOnlyLogging(v ssa.Value, seen map[ssa.Value]bool) bool {
+	if seen[v] {
+		return true
+	}
+	seen[v] = true
+	refs := v.Referrers()
+	if refs == nil {
+		return false
+	}
+	uses := 0
+	for _, r := range *refs {
+		switch u := r.(type) {
+		case *ssa.DebugRef:
+			continue
+		case *ssa.MakeInterface:
+			uses++
+			if !e.feedsOnlyLogging(u, seen) {
+				return false
+			}
+		case *ssa.ChangeType:
+			uses++
+			if !e.feedsOnlyLogging(u, seen) {
+				return false
+			}
+		case *ssa.ChangeInterface:
+			uses++
+			if !e.feedsOnlyLogging(u, seen) {
+				return false
+			}
+		case *ssa.Convert:
+			uses++
+			if !e.feedsOnlyLogging(u, seen) {
+				return false
+			}
+		case *ssa.Extract:
+			uses++
+			if !e.feedsOnlyLogging(u, seen) {
+				return false
+			}
+		case *ssa.Slice:
+			uses++
+			if u.X != v || !e.feedsOnlyLogging(u, seen) {
+				return false
+			}
+		case *ssa.Store:
+			uses++
+			if u.Val != v {
+				return false
+			}
+			ia, ok := u.Addr.(*ssa.IndexAddr)
+			if !ok {
+				return false
+			}
+			al, ok := ia.X.(*ssa.Alloc)
+			if !ok || al.Comment != "varargs" {
+				return false
+			}
+			// the varargs array: only element stores and one slicing that is passed on
+			ar := al.Referrers()
+			if ar == nil {
+				return false
+			}
+			for _, x := range *ar {
+				switch y := x.(type) {
+				case *ssa.IndexAddr, *ssa.DebugRef:
+				case *ssa.Slice:
+					if !e.feedsOnlyLogging(y, seen) {
+						return false
+					}
+				default:
+					return false
+				}
+			}
+		case ssa.CallInstruction:
+			uses++
+			if _, isGo := r.(*ssa.Go); isGo {
+				return false
+			}
+			if _, isDefer := r.(*ssa.Defer); isDefer {
+				return false
+			}
+			c := u.Common()
+			if c.Value == v {
+				return false // v is the callee / receiver, not an argument
+			}
+			cs := e.buildCallSite(nil, r, c)
+			switch {
+			case e.isLogSink(cs.key):
+			case cs.key == "fmt.Sprintf" || cs.key == "fmt.Sprint" || cs.key == "encoding/hex.EncodeToString":
+				cv, ok := r.(ssa.Value)
+				if !ok || !e.feedsOnlyLogging(cv, seen) {
+					return false
+				}
+			default:
+				return false
+			}
+		default:
+			return false
+		}
+	}
+	return uses > 0
 }
